@@ -207,12 +207,28 @@ def _s_sign(v):
     return float(_np.sign(v))
 
 
+def _exact_sqrt(v):
+    """sqrt of a concrete number inside the exact engine: exact for rational perfect squares, otherwise an
+    algebraic value (symbolic root with its defining polynomial) -- never a rounded float, so that
+    ``norm(x) ** 2`` stays exactly ``sum(x ** 2)``."""
+    from fractions import Fraction
+    from .sym import deround
+    f = deround(float(v)) if not isinstance(v, Fraction) else v
+    num, den = f.numerator, f.denominator
+    rn, rd = math.isqrt(num), math.isqrt(den)
+    if rn * rn == num and rd * rd == den:
+        return float(Fraction(rn, rd)) if Fraction(rn, rd).denominator <= 10 ** 9 else Fraction(rn, rd)
+    if Ctx.cur is None:
+        return math.sqrt(v)
+    return sym(f).sqrt()
+
+
 def _s_sqrt(v):
     if isinstance(v, (SymReal, Dual)):
         return v.sqrt()
     if v < 0:
         raise ValueError("sqrt of negative (nan)")
-    return math.sqrt(v)
+    return _exact_sqrt(v)
 
 
 def _s_exp(v):
@@ -732,7 +748,8 @@ def _vec_norm2(a):
     if not flat:
         return 0.0
     if not any(isinstance(v, _SYMT) for v in flat):
-        return math.sqrt(sum(float(v) ** 2 for v in flat))
+        from .sym import deround
+        return _exact_sqrt(sum(deround(float(v)) ** 2 for v in flat))
     return _s_sqrt(_sumsq(flat))
 
 
